@@ -1,4 +1,4 @@
-(* C18 — the EBU STL reader's GSI / TTI guards: outside the four recorded triggers the only failures are struct.error and
+(* C18 — the EBU STL reader's GSI / TTI guards: outside the three recorded triggers the only failures are struct.error and
    whatever tf.to_model (the oracle) raises *)
 From TT Require Import Base.Prelude Model.Outcome Model.ReaderGuards Proofs.C18.Srt.
 
@@ -34,7 +34,7 @@ Proof.
   - (* the block reaches the paragraph code *)
     cbv zeta.
     set (sn := nth 1 b 0 + 256 * nth 2 b 0). set (cs := nth 4 b 0). set (vp := nth 13 b 0).
-    set (same := match t_last_sn v with Some l => (l =? sn) && (sn <=? 256) | None => false end).
+    set (same := match t_last_sn v with Some l => l =? sn | None => false end).
     assert (G : (if negb same && cs_starts cs
                  then match t_rows v with
                       | None => Some (Internal AttributeErr)
@@ -75,68 +75,54 @@ Proof.
 Qed.
 
 Lemma stl_run_internal cfg oracle file k :
-  trig_bad_tcp cfg (firstn 1024 file) = false -> trig_bad_mnr cfg (firstn 1024 file) = false ->
+  trig_zero_rows cfg (firstn 1024 file) = false ->
   trig_zero_count (firstn 1024 file) = false -> trig_cum_first cfg file = false ->
   stl_run cfg oracle file = Internal k -> In (SubInternal k) oracle.
 Proof.
-  intros T1 T2 T3 T4. unfold stl_run, stl_init. unfold trig_cum_first in T4.
+  intros T2 T3 T4. unfold stl_run, stl_init. unfold trig_cum_first in T4.
   set (gsi := firstn 1024 file) in *.
   destruct (stl_header cfg gsi) as [h|o] eqn:Hd.
   - intro E. change oracle with (t_oracle (stl_vars_of h oracle)). eapply stl_loop_internal; eauto.
     unfold stl_inv. simpl.
     unfold stl_header in Hd. destruct (negb (Z.of_nat (length gsi) =? 1024)); [discriminate|].
-    unfold trig_bad_tcp in T1. unfold trig_bad_mnr in T2. unfold trig_zero_count in T3.
-    (* the start offset *)
-    destruct (match cfg_start cfg with
-              | StartNone => inl (0, 1)
-              | StartTCP => match gsi_tcp_ints gsi with
-                            | Some (h0, m, s, f) => inl (tc_frames (dfc_fps (slice 3 8 gsi)) h0 m s f * snd (dfc_fps (slice 3 8 gsi)), fst (dfc_fps (slice 3 8 gsi)))
-                            | None => inr (Internal AttributeErr)
-                            end
-              | StartTimecode df h0 m s f =>
-                  inl (tc_frames (if df && negb (snd (dfc_fps (slice 3 8 gsi)) =? 1001)
-                                  then (fst (dfc_fps (slice 3 8 gsi)) * 1000, snd (dfc_fps (slice 3 8 gsi)) * 1001) else dfc_fps (slice 3 8 gsi)) h0 m s f
-                       * snd (if df && negb (snd (dfc_fps (slice 3 8 gsi)) =? 1001)
-                              then (fst (dfc_fps (slice 3 8 gsi)) * 1000, snd (dfc_fps (slice 3 8 gsi)) * 1001) else dfc_fps (slice 3 8 gsi)),
-                       fst (if df && negb (snd (dfc_fps (slice 3 8 gsi)) =? 1001)
-                            then (fst (dfc_fps (slice 3 8 gsi)) * 1000, snd (dfc_fps (slice 3 8 gsi)) * 1001) else dfc_fps (slice 3 8 gsi)))
-              end) as [off|o] eqn:St; [|discriminate].
+    unfold trig_zero_rows in T2. unfold trig_zero_count in T3.
     assert (Cnt : (match bytes_int (slice 238 5 gsi) with Some n => n | None => maxsize end) <> 0).
     { destruct (bytes_int (slice 238 5 gsi)) as [n|]; [|unfold maxsize; lia]. apply Z.eqb_neq. exact T3. }
+    match type of Hd with (match ?st with inl _ => _ | inr _ => _ end) = _ => destruct st as [off|o] eqn:St; [|discriminate] end.
+    assert (Fin : forall fps off0,
+              match first_effective_cs fps off0 (stl_blocks file) with Some cs => negb (cs_starts cs) | None => false end = false ->
+              match first_effective_cs fps off0 (stl_blocks file) with Some cs => cs_starts cs = true | None => True end).
+    { intros fps off0 F. destruct (first_effective_cs fps off0 (stl_blocks file)); [apply negb_false_iff in F; exact F|exact I]. }
     destruct (cfg_rows cfg) as [| |n] eqn:Rw.
-    + inversion Hd; subst; simpl. repeat split; [exact Cnt|exists 23; split; [reflexivity|lia]|].
-      right. split; [reflexivity|]. simpl in T4. destruct (first_effective_cs _ _ _); [apply negb_false_iff in T4; exact T4|exact I].
+    + inversion Hd; subst; simpl in *. repeat split; [exact Cnt|exists 23; split; [reflexivity|lia]|].
+      right. split; [reflexivity|]. apply Fin. exact T4.
     + destruct (gsi_teletext gsi); simpl in T2.
-      * inversion Hd; subst; simpl. repeat split; [exact Cnt|exists 23; split; [reflexivity|lia]|].
-        right. split; [reflexivity|]. simpl in T4. destruct (first_effective_cs _ _ _); [apply negb_false_iff in T4; exact T4|exact I].
-      * destruct (bytes_int (slice 253 2 gsi)) as [n|]; [|discriminate].
-        inversion Hd; subst; simpl. repeat split; [exact Cnt|exists n; split; [reflexivity|apply Z.eqb_neq; exact T2]|].
-        right. split; [reflexivity|]. simpl in T4. destruct (first_effective_cs _ _ _); [apply negb_false_iff in T4; exact T4|exact I].
+      * inversion Hd; subst; simpl in *. repeat split; [exact Cnt|exists 23; split; [reflexivity|lia]|].
+        right. split; [reflexivity|]. apply Fin. exact T4.
+      * destruct (bytes_int (slice 253 2 gsi)) as [n|].
+        -- inversion Hd; subst; simpl in *. repeat split; [exact Cnt|exists n; split; [reflexivity|apply Z.eqb_neq; exact T2]|].
+           right. split; [reflexivity|]. apply Fin. exact T4.
+        -- inversion Hd; subst; simpl in *. repeat split; [exact Cnt|exists 23; split; [reflexivity|lia]|].
+           right. split; [reflexivity|]. apply Fin. exact T4.
     + destruct (gsi_teletext gsi); simpl in T2.
-      * inversion Hd; subst; simpl. repeat split; [exact Cnt|exists 23; split; [reflexivity|lia]|].
-        right. split; [reflexivity|]. simpl in T4. destruct (first_effective_cs _ _ _); [apply negb_false_iff in T4; exact T4|exact I].
-      * inversion Hd; subst; simpl. repeat split; [exact Cnt|exists n; split; [reflexivity|apply Z.eqb_neq; exact T2]|].
-        right. split; [reflexivity|]. simpl in T4. destruct (first_effective_cs _ _ _); [apply negb_false_iff in T4; exact T4|exact I].
-  - (* DataFile.__init__ raised: struct.error, or the TCP handler — excluded by the trigger *)
+      * inversion Hd; subst; simpl in *. repeat split; [exact Cnt|exists 23; split; [reflexivity|lia]|].
+        right. split; [reflexivity|]. apply Fin. exact T4.
+      * inversion Hd; subst; simpl in *. repeat split; [exact Cnt|exists n; split; [reflexivity|apply Z.eqb_neq; exact T2]|].
+        right. split; [reflexivity|]. apply Fin. exact T4.
+  - (* DataFile.__init__ raises nothing but struct.error *)
     intro E. subst. exfalso.
     unfold stl_header in Hd. destruct (negb (Z.of_nat (length gsi) =? 1024)); [discriminate|].
-    unfold trig_bad_tcp in T1.
-    destruct (cfg_start cfg).
-    + destruct (cfg_rows cfg) as [| |n]; [discriminate| |]; destruct (gsi_teletext gsi); try discriminate;
-        destruct (bytes_int (slice 253 2 gsi)); discriminate.
-    + destruct (gsi_tcp_ints gsi) as [[[[h0 m] s] f]|]; [|discriminate].
-      destruct (cfg_rows cfg) as [| |n]; [discriminate| |]; destruct (gsi_teletext gsi); try discriminate;
-        destruct (bytes_int (slice 253 2 gsi)); discriminate.
-    + destruct (cfg_rows cfg) as [| |n]; [discriminate| |]; destruct (gsi_teletext gsi); try discriminate;
-        destruct (bytes_int (slice 253 2 gsi)); discriminate.
+    destruct (cfg_start cfg); [| destruct (gsi_tcp_ints gsi) as [[[[h0 m] s] f]|] |];
+      (destruct (cfg_rows cfg) as [| |n]; [discriminate| |]; destruct (gsi_teletext gsi); try discriminate;
+       destruct (bytes_int (slice 253 2 gsi)); discriminate).
 Qed.
 
 Lemma stl_partial cfg oracle file :
-  trig_bad_tcp cfg (firstn 1024 file) = false -> trig_bad_mnr cfg (firstn 1024 file) = false ->
+  trig_zero_rows cfg (firstn 1024 file) = false ->
   trig_zero_count (firstn 1024 file) = false -> trig_cum_first cfg file = false ->
   (forall r, In r oracle -> sub_is_internal r = false) ->
   is_internal (stl_run cfg oracle file) = false.
 Proof.
-  intros T1 T2 T3 T4 H. destruct (stl_run cfg oracle file) eqn:E; try reflexivity.
+  intros T2 T3 T4 H. destruct (stl_run cfg oracle file) eqn:E; try reflexivity.
   apply stl_run_internal in E; auto. apply H in E. discriminate.
 Qed.
